@@ -338,7 +338,6 @@ def point_mid(pt1, pt2):
     return point_translate(pt1, half_dist_vector)
 
 
-@lru_cache(maxsize=int(os.environ['GEOMDL_CACHE_SIZE']) if "GEOMDL_CACHE_SIZE" in os.environ else 16)
 def matrix_identity(n):
     """ Generates a :math:`N \\times N` identity matrix.
 
